@@ -198,6 +198,25 @@ add(property='C14', id='C14-solve-nan-poisons', status='fixed', commit='c3b6f18'
          'later evaluation, the returned lens and the lens after undo() kept the NaN position',
     reproducer=json.load(open(os.path.join(HERE, 'known_cases', 'C14-solve-nan.json'))))
 
+_negf = spec([surf(R=40.0, t=5.0, mat=glass(1.6), stop=True), surf(R=-60.0, t=50.0)], ap=('EPD', 8.0), fields=(0.0, -5.0))
+add(property='C04', id='C04-negative-fields', status='fixed', commit='62531ac', clause='invariant',
+    what='fixed: property=C04 62531ac the paraxial chief ray (and with it the Lagrange invariant) was built from the '
+         'algebraically largest y field instead of the largest field magnitude that Hy = 1 stands for everywhere else: '
+         'with fields (0, -5 deg) the chief ray was the zero ray and the invariant 0; with (-5) alone its sign was reversed',
+    reproducer={'kind': 'spec', 'spec': _negf})
+add(property='C08', id='C08-negative-fields', status='fixed', commit='62531ac', clause='seidel_sums',
+    what='fixed: property=C08 62531ac same root cause as C04-negative-fields: every field-dependent third-order term was 0 '
+         'for field sets whose largest y field is 0 (e.g. 0, -5 deg)',
+    reproducer={'kind': 'spec', 'spec': _negf})
+add(property='C09', id='C09-negative-fields', status='fixed', commit='62531ac', clause='opd_is_path_difference_to_reference_sphere',
+    what='fixed: property=C09 62531ac same root cause as C04-negative-fields in Wavefront._correct_tilt: the field tilt '
+         'was taken as max_y_field x Hy, which is 0 for fields (0, -5 deg): OPDs of the off-axis field wrong by the whole tilt',
+    reproducer={'spec': _negf, 'dist': 'hexapolar', 'n': 0, 'fld': 1, 'wl': 0, 'extras': False, 'edit': None})
+add(property='C09', id='C09-object-medium', status='fixed', commit='b5e523d', clause='opd_is_path_difference_to_reference_sphere',
+    what='fixed: property=C09 b5e523d for an infinite object in a medium other than air the field-tilt term of the OPD was a '
+         'geometric instead of an optical path: 36 waves error at 1.26 deg for n0 = 1.1',
+    reproducer=json.load(open(os.path.join(HERE, 'known_cases', 'C09-object-medium.json'))))
+
 add(property='C01', id='C01-solve-slope', status='fixed', commit='08843a4', clause='solve_places_marginal_ray',
     what='fixed: property=C01 08843a4 marginal_ray_height solve (and image_solve) used the marginal slope behind the '
          'moved surface: on a powered surface the requested height was missed (two mirrors, R=5: 2.0 instead of 0.0)',
